@@ -189,9 +189,11 @@ claim("C15",
       "key component types derive Hash/PartialEq/Eq, that the memoised computations (966 reachable bodies) read no mutable static, "
       "thread-local or ambient-state API, and that every parse inside the stdin completeness decision is given the accumulated input or "
       "a prefix of it (never a tail or a single line, whose tokenizer context would be lost); that memo keys are injective images of the inputs; "
-      "and that SourcePosition.index (a character count) is nowhere compared with a byte length or used as a byte offset.",
-      "Trusted: rustc MIR; cached::SizedCache key semantics. Not decided: equality of outputs across delivery modes, $LINENO, the "
-      "complete/incomplete classification.",
+      "that SourcePosition.index (a character count) is nowhere compared with a byte length or used as a byte offset; and that every run of a "
+      "separately parsed program text is given a line base (its own call frame, or a rebase of the line offset by the current command's line), "
+      "so $LINENO does not depend on the delivery mode.",
+      "Trusted: rustc MIR; cached::SizedCache key semantics. Not decided: equality of outputs across delivery modes, the "
+      "complete/incomplete classification, the $LINENO values themselves.",
       ST + "backward taint to memo keys, derive inspection, call-graph purity closure", "DESIGN.md §3 C15")
 claim("C19",
       "Decides that the highlighter contains no unchecked slicing/indexing/unwrap, slices only through str::get, and that append_span — "
